@@ -216,6 +216,10 @@ def run_case(ctx, name, params):
         algo = params["algo"]
         setup = insitu.random_setup(r, algo=algo, max_n=6, max_N=30, max_G=15)
         bxs = setup["bounds"]
+        precs = [None] * len(bxs)
+        if r.random() < 0.3:
+            precs = [r.choice([None, 1e-3, 1e-6]) * 1 if False else r.choice([None, 1e-3, 1e-6]) for _ in bxs]
+            precs = [pr if pr is None or pr < (ub - lb) / 50 else None for pr, (lb, ub) in zip(precs, bxs)]
         bad = []
 
         def on_call(vec):
@@ -223,13 +227,17 @@ def run_case(ctx, name, params):
             if len(vec) != len(bxs):
                 bad.append(("dimension", list(vec)))
                 return
-            for x, (lb, ub) in zip(vec, bxs):
-                t = tol(lb, ub)
+            for x, (lb, ub), pr_ in zip(vec, bxs, precs):
+                t = tol(lb, ub, pr_)
                 if isinstance(x, complex) or x != x or not (lb - t <= x <= ub + t):
                     bad.append(("out_of_box", list(vec)))
                     return
         hostile = r.choice([0.0, 0.02, 0.1])
-        p, a, err = insitu.run_one(setup, hostile=hostile, on_call=on_call, timeout=10)
+        prm_ = None
+        if any(precs):
+            prm_ = [dict({"name": "x%d" % i, "bounds": list(b)}, **({"precision": pr_} if pr_ else {})) for i, (b, pr_) in enumerate(zip(bxs, precs))]
+            ctx.count("runs_with_declared_precision")
+        p, a, err = insitu.run_one(setup, hostile=hostile, on_call=on_call, timeout=10, **({"params": prm_} if prm_ else {}))
         ctx.count("runs")
         if err is None and not bad and r.random() < 0.4:
             # zoom in: the declared box is narrowed in place and the same algorithm object runs again
